@@ -240,6 +240,11 @@ type DecV struct {
 	Val   *Term // SReal
 	NegZ  bool
 	Lossy bool // derived from a binary float that was not exactly tracked
+	// Exp is the exponent of the encoding when it is known (integers: 0, a
+	// parsed text: minus its fractional digits, New: its argument; products
+	// add, sums take the minimum); nil when unknown. Only Go's == on the
+	// struct depends on it.
+	Exp *int
 }
 
 type IterV struct {
